@@ -352,8 +352,8 @@ def c15_admit_gen(rng, tier):
         for j in range(nconn):
             steps.append("hc:none")
             steps += ["hq:" + subs[(j + t) % len(subs)] for t in range(rng.choice([1, 1, 2]))]
-            if rng.random() < 0.25:
-                steps.append("tq:none")
+            if rng.random() < 0.35:
+                steps.append("tq:" + rng.choice(["none", "none2", "none3", "none4"]))
             if rng.random() < 0.15:
                 steps.append("hx:%d" % rng.randrange(10))
         if rng.random() < 0.5:
@@ -406,11 +406,11 @@ def c15_admit_oracle(line, res):
         kind, a = st.split(":")
         if o.endswith("+fwd"):
             return "step %s: outcome %s but the query reached the upstream (a query the limiter did not admit must not be forwarded)" % (st, o)
-        if a == "none":
+        if a.startswith("none"):
             # a peer without an IP address (listener on a unix socket): there is no subnet to charge; the clients behind
             # the connection are limited per request by the address in the client_addr_header
-            if kind == "hc" and o == "CLOSED":
-                return ("step %s: the connection of a peer without an IP address (http listener on a unix socket) was closed by the "
+            if kind in ("hc", "tq") and o == "CLOSED":
+                return ("step %s: the connection of a peer without an IP address (listener on a unix socket) was closed by the "
                         "limiter: the connection cost can only be charged to a valid peer address; the clients behind such "
                         "connections (client_addr_header) are all within their own budgets" % st)
             continue
